@@ -16,6 +16,13 @@ for line in open(sys.argv[1]):
     if len(parts) >= 3:
         catch[parts[0]] = " ".join(parts[2:])
 
+# changes that the check of their own property does not report but another check does (run by hand)
+OTHER_CHECK = {
+    "C09-B": {"caught_by": ["C11"],
+              "note": "not reported by the C09 check (the change does not alter any refusal decision or structural flag); "
+                      "reported by the C11 check: git -C /repo apply patch.diff; ./check C11 quick -> exit 1, VIOLATION property=C11 "
+                      "(marginal query values)"},
+}
 kept, dropped = [], []
 for root in sys.argv[2:]:
     rnd = os.path.basename(root.rstrip("/"))
@@ -38,7 +45,7 @@ for root in sys.argv[2:]:
             os.makedirs(out, exist_ok=True)
             shutil.copy(os.path.join(d, "patch.diff"), out)
             shutil.copy(os.path.join(d, "demo.py"), out)
-            res = catch.get(d, "")
+            res = catch.get(out, "") or catch.get(d, "")  # the run on seeded/<id> (final checks) wins
             json.dump({
                 "property": meta["property"],
                 "origin": "fresh sub-agent given only the property text and its own scratch worktree of /repo",
@@ -58,6 +65,10 @@ for root in sys.argv[2:]:
                     "caught": "exit=1" in res,
                 },
             }, open(os.path.join(out, "meta.json"), "w"), indent=1)
+            if sid in OTHER_CHECK:
+                m_ = json.load(open(os.path.join(out, "meta.json")))
+                m_["check_result"].update(OTHER_CHECK[sid])
+                json.dump(m_, open(os.path.join(out, "meta.json"), "w"), indent=1)
             kept.append(sid)
 
 # reverse of every fix: commit
